@@ -260,9 +260,10 @@ Definition compile (o : own) (t : tid) (a : action) : option (list micro) :=
           match e_kind e with
           | EPoll =>
               match kind_of o (e_holder e) with
+              | Some KFut => Some [MExitE e]
               | Some (KFutW false) => Some [MExitE e; MPopDefault t]
               | Some (KFutW true) => Some [MPopDefault t; MExitE e]
-              | _ => Some [MExitE e]
+              | _ => None                  (* unreachable: only futures are polled *)
               end
           | _ => None end
       | None => None end
